@@ -386,6 +386,9 @@ mod observers {
     }
     pub fn sources() -> Vec<String> {
         let mut v = vec!["10 u8! emit".to_string(), "\"x\" print".to_string(), "5 var g".to_string()];
+        // a conversion that fails after some good elements, and one that succeeds
+        v[2] = "5 var g [ 7 \"ab\" 9 ] >bitstr".to_string();
+        v[1] = "\"x\" print [ 1 2 300 ] >bitstr".to_string();
         // the same failing token list with its line breaks in different places
         let toks = ["1", "2", "drop", "drop", "drop", "7"];
         for mask in [0b00000u32, 0b00010, 0b01001, 0b10100, 0b11111] {
